@@ -240,6 +240,71 @@ let same_type a b =
                | _ -> false)
   | _ -> false
 
+(** val cmp_int_float : coq_Z -> coq_N -> comparison **)
+
+let cmp_int_float z b =
+  if float_is_nan b
+  then Lt
+  else let neg = N.leb sign_bit b in
+       let absb = N.coq_land b abs_mask in
+       let expbits =
+         N.shiftr absb (Npos (Coq_xO (Coq_xO (Coq_xI (Coq_xO (Coq_xI
+           Coq_xH))))))
+       in
+       let frac =
+         N.coq_land absb (Npos (Coq_xI (Coq_xI (Coq_xI (Coq_xI (Coq_xI
+           (Coq_xI (Coq_xI (Coq_xI (Coq_xI (Coq_xI (Coq_xI (Coq_xI (Coq_xI
+           (Coq_xI (Coq_xI (Coq_xI (Coq_xI (Coq_xI (Coq_xI (Coq_xI (Coq_xI
+           (Coq_xI (Coq_xI (Coq_xI (Coq_xI (Coq_xI (Coq_xI (Coq_xI (Coq_xI
+           (Coq_xI (Coq_xI (Coq_xI (Coq_xI (Coq_xI (Coq_xI (Coq_xI (Coq_xI
+           (Coq_xI (Coq_xI (Coq_xI (Coq_xI (Coq_xI (Coq_xI (Coq_xI (Coq_xI
+           (Coq_xI (Coq_xI (Coq_xI (Coq_xI (Coq_xI (Coq_xI
+           Coq_xH))))))))))))))))))))))))))))))))))))))))))))))))))))
+       in
+       if N.eqb expbits (Npos (Coq_xI (Coq_xI (Coq_xI (Coq_xI (Coq_xI (Coq_xI
+            (Coq_xI (Coq_xI (Coq_xI (Coq_xI Coq_xH)))))))))))
+       then if neg then Gt else Lt
+       else let m =
+              Z.of_N
+                (if N.eqb expbits N0
+                 then frac
+                 else N.add frac (Npos (Coq_xO (Coq_xO (Coq_xO (Coq_xO
+                        (Coq_xO (Coq_xO (Coq_xO (Coq_xO (Coq_xO (Coq_xO
+                        (Coq_xO (Coq_xO (Coq_xO (Coq_xO (Coq_xO (Coq_xO
+                        (Coq_xO (Coq_xO (Coq_xO (Coq_xO (Coq_xO (Coq_xO
+                        (Coq_xO (Coq_xO (Coq_xO (Coq_xO (Coq_xO (Coq_xO
+                        (Coq_xO (Coq_xO (Coq_xO (Coq_xO (Coq_xO (Coq_xO
+                        (Coq_xO (Coq_xO (Coq_xO (Coq_xO (Coq_xO (Coq_xO
+                        (Coq_xO (Coq_xO (Coq_xO (Coq_xO (Coq_xO (Coq_xO
+                        (Coq_xO (Coq_xO (Coq_xO (Coq_xO (Coq_xO (Coq_xO
+                        Coq_xH))))))))))))))))))))))))))))))))))))))))))))))))))))))
+            in
+            let e =
+              Z.sub
+                (Z.of_N (if N.eqb expbits N0 then Npos Coq_xH else expbits))
+                (Zpos (Coq_xI (Coq_xI (Coq_xO (Coq_xO (Coq_xI (Coq_xI (Coq_xO
+                (Coq_xO (Coq_xO (Coq_xO Coq_xH)))))))))))
+            in
+            let sm = if neg then Z.opp m else m in
+            if Z.leb Z0 e
+            then Z.compare z (Z.mul sm (Z.pow (Zpos (Coq_xO Coq_xH)) e))
+            else Z.compare (Z.mul z (Z.pow (Zpos (Coq_xO Coq_xH)) (Z.opp e)))
+                   sm
+
+(** val cmp_values : coq_val -> coq_val -> comparison option **)
+
+let cmp_values a b =
+  match a with
+  | VInt x ->
+    (match b with
+     | VFloat y -> Some (cmp_int_float x y)
+     | _ -> if same_type a b then Some (val_cmp a b) else None)
+  | VFloat x ->
+    (match b with
+     | VInt y -> Some (coq_CompOpp (cmp_int_float y x))
+     | _ -> if same_type a b then Some (val_cmp a b) else None)
+  | _ -> if same_type a b then Some (val_cmp a b) else None
+
 (** val like_match : nat -> coq_N list -> coq_N list -> bool **)
 
 let rec like_match fuel p s =
@@ -651,9 +716,9 @@ let rec eval_expr row = function
            (match b with
             | VNull -> EVal VNull
             | _ ->
-              if same_type a b
-              then EVal (VBool (cmp_holds c (val_cmp a b)))
-              else ETypeErr))
+              (match cmp_values a b with
+               | Some r0 -> EVal (VBool (cmp_holds c r0))
+               | None -> ETypeErr)))
       | x -> x)
    | x -> x)
 | EAnd (l, r) ->
